@@ -445,7 +445,19 @@ pub fn gen_dec_stream(rng: &mut Rng, enc: &'static Encoding, long: bool, bom_bia
             st.strategy = "long-runs";
             let cfg = TextCfg { len: rng.range(64, 1500), sweep_base: None, ascii_pct: rng.pick(&[70u32, 90, 97]), lone_surrogates: false, runs: true };
             let t = gen_text(rng, &cfg);
-            encode_well_formed(enc, &text_scalars(&t))
+            let mut b = encode_well_formed(enc, &text_scalars(&t));
+            // plant a few defects: bytes that are (mostly) malformed on their own,
+            // at PRNG-chosen offsets inside the runs, sometimes two of them 16-31
+            // bytes apart (both halves of a double stride)
+            if !b.is_empty() && rng.chance(2, 3) {
+                let k = rng.range(1, 3);
+                let mut at = rng.below(b.len());
+                for _ in 0..k {
+                    b[at] = rng.pick(&[0xFFu8, 0xC0, 0xE1, 0xF5, 0x80, 0xAA, 0xFE, 0xE2, 0xD8]);
+                    at = (at + rng.range(1, 40)).min(b.len() - 1);
+                }
+            }
+            b
         }
     };
     // (c) BOM prefixes and look-alikes in front
